@@ -93,6 +93,8 @@ def _guard_evidence(fi, node, recv, assigns):
     for t, _pol in dominating_guards(node) + preceding_exit_guards(node):
         for c in ast.walk(t):
             if isinstance(c, ast.Call) and dotted(c.func) not in ("isinstance", "hasattr", "len") and any(src(a) in names for a in c.args):
+                if (dotted(c.func) or "").split(".")[-1] in ("get_all_variables", "get_variables", "_get_variables_iterative"):
+                    continue        # "has no variables" is positively not "holds no Parameter": (2 * p) has no variables
                 return "unknown"
     return "none"
 
